@@ -109,3 +109,158 @@ func TestVerifC17Overrides(t *testing.T) {
 		})
 	}
 }
+
+// TestVerifC17Lifecycle: an encrypted stream keeps its promises across what happens to a partition OBJECT during its life:
+// an explicit pause and the publish that resumes it (the partition is replaced), a server restart while the stream is paused
+// (the partition is rebuilt from the Raft log in its paused form) followed by a resume, a read-only switch and back. After
+// every event a fresh value is published; oracle (C17's words): no stored value contains its plaintext, and a subscriber from
+// the earliest offset receives exactly the published values, in order.
+func TestVerifC17Lifecycle(t *testing.T) {
+	res := vNewResult("C17", "[partition life cycle] single-node server, streams created with Encryption=true: event sequences over {pause + resuming publish, restart while paused + resuming publish, plain restart, read-only on/off}; "+
+		"a fresh value published after every event; oracle: no stored value contains its plaintext, the partition in service has an encryption handler, a subscriber from the earliest offset gets exactly the published values in order; "+
+		"non-trivial: every case; distinct by event sequence")
+	defer res.Write(t)
+	t.Setenv("LIFTBRIDGE_ENCRYPTION_KEY", c17pKeyA)
+	cleanupStorage(t)
+	s := vStartSingleNode(t, "c17l", c17oPort+1, nil)
+	defer func() { s.Stop(); cleanupStorage(t) }()
+	bl := func(v bool) *client.NullableBool { return &client.NullableBool{Value: v} }
+	events := []string{"pause", "restart-paused", "restart", "readonly"}
+	var seqs [][]string
+	for _, a := range events {
+		seqs = append(seqs, []string{a})
+		for _, b := range events {
+			seqs = append(seqs, []string{a, b})
+		}
+	}
+	if vThorough() {
+		for _, a := range events {
+			for _, b := range events {
+				for _, c := range events {
+					seqs = append(seqs, []string{a, b, c})
+				}
+			}
+		}
+	}
+	call := func(f func(ctx context.Context) error) error {
+		ctx, cancel := context.WithTimeout(context.Background(), 15*time.Second)
+		defer cancel()
+		return f(ctx)
+	}
+	for n, seq := range seqs {
+		name := fmt.Sprintf("c17l%d", n)
+		line := "c17l encrypted stream: " + fmt.Sprint(seq)
+		res.Count(line, true)
+		res.Dist(fmt.Sprintf("lifecycle:len%d", len(seq)))
+		bad := func(kind, tag, detail string) {
+			res.Fail(vFailure{Kind: kind, Case: []string{line}, Tag: tag, Detail: detail})
+		}
+		if err := call(func(ctx context.Context) error {
+			_, err := s.api.CreateStream(ctx, &client.CreateStreamRequest{Subject: name, Name: name, ReplicationFactor: 1, Partitions: 1, Encryption: bl(true)})
+			return err
+		}); err != nil {
+			bad("disagreement", "", "fixture: create stream: "+err.Error())
+			continue
+		}
+		var plains [][]byte
+		publish := func(step string) bool {
+			if c16rWaitLeader(s, name) == nil && step == "initial" {
+				bad("disagreement", "", "fixture: partition not led")
+				return false
+			}
+			plain := []byte(fmt.Sprintf("PLAINTEXT-%s-%d-0123456789abcdef", name, len(plains)))
+			var err error
+			for try := 0; try < 40; try++ { // a partition that was just resumed / restarted may need a moment to lead again
+				err = call(func(ctx context.Context) error {
+					_, e := s.api.Publish(ctx, &client.PublishRequest{Stream: name, Value: plain, AckPolicy: client.AckPolicy_LEADER, ExpectedOffset: -1})
+					return e
+				})
+				if err == nil {
+					break
+				}
+				time.Sleep(100 * time.Millisecond)
+			}
+			if err != nil {
+				bad("disagreement", "", "fixture: publish after "+step+" failed: "+err.Error())
+				return false
+			}
+			plains = append(plains, plain)
+			return true
+		}
+		if !publish("initial") {
+			continue
+		}
+		ok := true
+		for _, ev := range seq {
+			switch ev {
+			case "pause", "restart-paused":
+				if err := call(func(ctx context.Context) error {
+					_, e := s.api.PauseStream(ctx, &client.PauseStreamRequest{Name: name})
+					return e
+				}); err != nil {
+					bad("disagreement", "", "fixture: pause: "+err.Error())
+					ok = false
+				}
+				if ok && ev == "restart-paused" {
+					s.Stop()
+					s = vStartSingleNode(t, "c17l", c17oPort+1, nil)
+				}
+			case "restart":
+				s.Stop()
+				s = vStartSingleNode(t, "c17l", c17oPort+1, nil)
+			case "readonly":
+				for _, ro := range []bool{true, false} {
+					ro := ro
+					if err := call(func(ctx context.Context) error {
+						_, e := s.api.SetStreamReadonly(ctx, &client.SetStreamReadonlyRequest{Name: name, Readonly: ro})
+						return e
+					}); err != nil {
+						bad("disagreement", "", fmt.Sprintf("fixture: readonly=%v: %v", ro, err))
+						ok = false
+					}
+				}
+			}
+			if !ok || !publish(ev) {
+				ok = false
+				break
+			}
+		}
+		if !ok {
+			continue
+		}
+		p := c16rWaitLeader(s, name)
+		if p == nil {
+			bad("disagreement", "", "fixture: partition not led at the end")
+			continue
+		}
+		stored, rerr := c17pReadLog(p)
+		if rerr != nil || len(stored) != len(plains) {
+			bad("disagreement", "", fmt.Sprintf("fixture: reading the log back: %d values for %d publishes, %v", len(stored), len(plains), rerr))
+			continue
+		}
+		failed := false
+		for i := range stored {
+			if bytes.Equal(stored[i], plains[i]) || bytes.Contains(stored[i], plains[i]) {
+				bad("spec", "plaintext-stored", fmt.Sprintf("the stream was created with encryption; the value published as message %d (after %v) is stored in clear", i, seq))
+				failed = true
+				break
+			}
+		}
+		if failed {
+			continue
+		}
+		if p.encryptionHandler == nil {
+			bad("spec", "plaintext-stored", "the stream was created with encryption; the partition in service after "+fmt.Sprint(seq)+" has no encryption handler")
+			continue
+		}
+		sub := c17pSubscribe(p, len(plains), len(plains), -1, false)
+		same := sub.st == nil && len(sub.vals) == len(plains)
+		for i := 0; same && i < len(plains); i++ {
+			same = bytes.Equal(sub.vals[i], plains[i])
+		}
+		if !same {
+			bad("spec", "subscriber-not-plaintext", fmt.Sprintf("after %v a subscriber from the earliest offset must receive the %d published values exactly; it got %d values (status %v), first difference shown: %s",
+				seq, len(plains), len(sub.vals), sub.st, c17pShowSubShort(sub)))
+		}
+	}
+}
